@@ -324,7 +324,12 @@ func runC18(c *Ctx) {
 		okGuard := false
 		if len(fn.Decl.Body.List) > 0 {
 			if is, ok := fn.Decl.Body.List[0].(*ast.IfStmt); ok && terminates(is.Body.List) {
-				if be, ok := unparen(is.Cond).(*ast.BinaryExpr); ok && be.Op == token.GEQ && canon(be.X) == "n" {
+				// n is the last parameter (tenant, series, n)
+				nName := "\x00none"
+				if ps := namesOf(fn).Params; len(ps) > 0 {
+					nName = ps[len(ps)-1]
+				}
+				if be, ok := unparen(is.Cond).(*ast.BinaryExpr); ok && be.Op == token.GEQ && canon(be.X) == nName {
 					t := canon(be.Y)
 					if strings.Contains(t, "len(") || strings.HasSuffix(t, ".numEndpoints") {
 						okGuard = true
@@ -353,7 +358,7 @@ func runC18(c *Ctx) {
 					switch {
 					case strings.Contains(t, "HashWithPrefix("):
 						return "h"
-					case t == "n":
+					case len(namesOf(fn).Params) > 0 && t == namesOf(fn).Params[len(namesOf(fn).Params)-1]:
 						return "n"
 					case strings.HasPrefix(t, "len("):
 						return "len"
